@@ -18,6 +18,7 @@ type runSpec struct {
 	tCases     int
 	watchdog   time.Duration // whole-worker limit
 	stall      time.Duration // no-journal-progress limit
+	background bool          // runs beside the other runs of the check (workloads that wait on the real clock)
 }
 
 type guard struct {
@@ -67,7 +68,7 @@ func prefixSpec(nontrivial string, guards ...guard) *propSpec {
 		level: "exploration",
 		rule: "each history fixes a pool (/56-/64, /60-/64, /62-/64, /64-/64, /48-/52, /120-/124, ...), 1-6 clients (every DUID kind incl. opaque) and 20-60 messages (SOLICIT/REQUEST/RENEW/REBIND, 0-3 IA_PD x 0-3 IAPrefix hints from {none, length-only, length 0, own prefix, in-pool free/other's/own block, out-of-pool, longer than the allocation size, length > 128}, 0-2 relay layers, retransmissions) sent as wire bytes through HandleMsg6 into the plugin obtained from Plugin.Setup6; a per-client prefix model decides every reply and fresh clients drain the pool at the end (conservation). " + nontrivial,
 		assumptions: assume("no lease expiry/GC exists in the code: 'for as long as the server runs' = the length of the history; the thorough tier adds instances that are driven again after a real wait of one hour (every lifetime has run out: lapsed blocks may go to anyone, never to two clients at once)", "length-only hints (::/64) are outside C09's obligations"),
-		runs:        []runSpec{{engine: "prefix", qBatches: 32, qCases: 16, tBatches: 128, tCases: 400}, {engine: "prefixconc", race: true, parallel: 8, qBatches: 8, qCases: 12, tBatches: 64, tCases: 100}, hourRun()},
+		runs:        []runSpec{{engine: "prefix", qBatches: 32, qCases: 16, tBatches: 128, tCases: 400}, {engine: "prefixconc", race: true, parallel: 8, qBatches: 8, qCases: 12, tBatches: 64, tCases: 100}},
 		guards:      guards,
 	}
 }
@@ -85,7 +86,7 @@ func wireVarRun() runSpec {
 
 // hourRun: the prefix plugin one hour later (thorough tier only: the wait is real time)
 func hourRun() runSpec {
-	return runSpec{engine: "prefixhour", parallel: 6, tBatches: 6, tCases: 1, stall: 5 * time.Minute}
+	return runSpec{engine: "prefixhour", parallel: 6, tBatches: 6, tCases: 1, stall: 5 * time.Minute, background: true}
 }
 
 // raceSlice: a small slice of the concurrent dual-stack workload (-race) for properties whose breaks may
@@ -141,7 +142,7 @@ var specs = map[string]*propSpec{
 		guards: []guard{{"range.crash_points", 1500, "crash points"}, {"range.restarts", 10, "restarts"}, {"rangekill.acked_bindings_verified", 100, "bindings verified after SIGKILL"}, {"range.slow_renewals", 10, "renewals after real pauses (expiry must follow the clock)"}},
 	},
 	"C08": prefixSpec("Non-trivial (C08) = history in which >= 2 clients hold prefixes and some client sent >= 2 messages; distinct by (pool, clients, seed)",
-		guard{"prefix.replies", 5000, "replies observed"}, guard{"prefix.noprefixavail", 50, "exhaustion"}, guard{"prefix.hint.in-pool-others", 100, "hints on other clients' prefixes"}),
+		guard{"prefix.replies", 5000, "replies observed"}, guard{"prefix.noprefixavail", 50, "exhaustion"}, guard{"prefix.hint.in-pool-others", 100, "hints on other clients' prefixes"}).with(hourRun()),
 	"C09": prefixSpec("Non-trivial (C09) = history in which a client that already holds a prefix sent another IA_PD (renewal, hint-less repeat or retransmission); distinct by (pool, clients, seed)",
 		guard{"prefix.repeat_or_renewal_from_holder", 2000, "renewals/repeats by holders"}, guard{"prefix.hint.own", 500, "exact renewals"}, guard{"prefix.hint.none", 1000, "hint-less IA_PDs"},
 		guard{"prefix.hint.length-0", 200, "length-0 hints"}, guard{"prefix.audits", 300, "conservation audits"}, guard{"prefix.retransmissions", 500, "retransmissions"}),
